@@ -450,6 +450,34 @@ func stateRules(c *Ctx) {
 				c.bad("STATE", "format:"+short1, i.Pos(), fmt.Sprintf("%s builds the format string of %s from %s: a '%%' in that text is read as a formatting verb, so the text comes out garbled and the operands shift", short1, calleeName(ci), strings.Join(pretty(g, leaves), ", ")))
 			}
 		})
+		// ---- a reader that silently stops after a fixed number of bytes
+		eachInstr(g, func(i ssa.Instruction) {
+			ci, ok := i.(ssa.CallInstruction)
+			if !ok {
+				return
+			}
+			switch n := calleeName(ci); n {
+			case "io.LimitReader", "io.CopyN", "net/http.MaxBytesReader":
+				as := ci.Common().Args
+				if k, isC := as[len(as)-1].(*ssa.Const); isC && k.Value != nil {
+					c.bad("STATE", "truncating-read:"+short1, i.Pos(), fmt.Sprintf("%s reads its input through %s with the constant limit %s: a longer input is cut off there without an error, so what is parsed is a prefix of what was written", short1, n, k.Value.String()))
+				}
+			}
+		})
+		// ---- binary search in a list that is kept in arrival order
+		eachInstr(g, func(i ssa.Instruction) {
+			cl, ok := i.(*ssa.Call)
+			if !ok {
+				return
+			}
+			n := calleeName(cl)
+			if n != "sort.SearchStrings" && n != "sort.SearchInts" && n != "sort.SearchFloat64s" {
+				return
+			}
+			if why := keptUnsorted(g, cl.Call.Args[0]); why != "" {
+				c.bad("STATE", "search-unsorted:"+short1, cl.Pos(), fmt.Sprintf("%s looks a value up with %s in a list that %s: binary search needs ascending order, so a value that is present can be reported absent (duplicates are kept, members are missed)", short1, n, why))
+			}
+		})
 		// ---- a send that gives up when the receiver is not ready
 		eachInstr(g, func(i ssa.Instruction) {
 			sel, ok := i.(*ssa.Select)
@@ -467,6 +495,15 @@ func stateRules(c *Ctx) {
 		nPool += poolAlias(c, g, short1)
 		// ---- variables shared with a started goroutine
 		nGo += goCapture(c, g, short1)
+	}
+	// parsers that link features to a local Sequence (shared by C01, C14, C15)
+	switch c.Prop {
+	case "C01":
+		parentFilled(c, "STATE", c.W.fn("io/genbank", "Parse"))
+	case "C14":
+		parentFilled(c, "STATE", c.W.fn("io/gff", "Parse"))
+	case "C15":
+		parentFilled(c, "STATE", c.W.fn("io/polyjson", "Parse"))
 	}
 	c.ok("STATE", "family examined", fam[0].Pos(), fmt.Sprintf("%d functions reachable from the anchors examined: %d writes to package-level memory, %d remembered values, %d pooled objects, %d goroutines started on function literals", len(fam), nWrites, nMemo, nPool, nGo))
 }
@@ -864,4 +901,163 @@ func storeAfter(gi *ssa.Go, al *ssa.Alloc) *ssa.Store {
 		}
 	}
 	return nil
+}
+
+// parentFilled (C01, C14, C15): a parser that links features to a local Sequence value through
+// AddFeature(&local, ...) must also put the sequence text into that same value: GetSequence on a parsed
+// feature reads feature.ParentSequence.Sequence. Evidence of the defect: the receiver is a local
+// variable, nothing in the function stores its Sequence field (or the whole value), and its address
+// goes nowhere else (so no helper can fill it). A helper that fills a by-value copy fills the copy.
+func parentFilled(c *Ctx, rule string, f *ssa.Function) {
+	if f == nil || f.Blocks == nil {
+		return
+	}
+	short1 := strings.TrimPrefix(fname(f), "poly/")
+	seen := map[*ssa.Alloc]bool{}
+	eachInstr(f, func(i ssa.Instruction) {
+		ci, ok := i.(ssa.CallInstruction)
+		if !ok || calleeName(ci) != "(*poly.Sequence).AddFeature" || len(ci.Common().Args) == 0 {
+			return
+		}
+		a, ok := unwrap(ci.Common().Args[0]).(*ssa.Alloc)
+		if !ok || seen[a] || a.Referrers() == nil {
+			return
+		}
+		seen[a] = true
+		filled, escapes := false, false
+		var visit func(v ssa.Value, depth int)
+		visit = func(v ssa.Value, depth int) {
+			if v.Referrers() == nil || depth > 3 {
+				return
+			}
+			for _, r := range *v.Referrers() {
+				switch x := r.(type) {
+				case *ssa.Store:
+					if x.Addr == v {
+						if v == ssa.Value(a) || depth > 0 {
+							filled = true // whole value, or the field reached below
+						}
+					} else if x.Val == v {
+						escapes = true
+					}
+				case *ssa.FieldAddr:
+					if storeFieldName(x) == "Sequence" && v == ssa.Value(a) {
+						visit(x, depth+1)
+					}
+				case ssa.CallInstruction:
+					if calleeName(x) == "(*poly.Sequence).AddFeature" && len(x.Common().Args) > 0 && x.Common().Args[0] == v {
+						continue
+					}
+					escapes = true
+				case *ssa.MakeInterface:
+					// json.Unmarshal(data, &local) decodes every exported field, the sequence text included
+					if x.Referrers() != nil {
+						for _, rr := range *x.Referrers() {
+							if cj, isCall := rr.(ssa.CallInstruction); isCall && (calleeName(cj) == "encoding/json.Unmarshal" || calleeName(cj) == "(*encoding/json.Decoder).Decode") {
+								filled = true
+							} else {
+								escapes = true
+							}
+						}
+					}
+				case *ssa.MakeClosure, *ssa.Phi, *ssa.Return:
+					escapes = true
+				}
+			}
+		}
+		visit(a, 0)
+		key := "parent receives the sequence text:" + short1
+		switch {
+		case filled:
+			c.ok(rule, key, ci.Pos(), "the Sequence value the features are linked to is the one the sequence text is stored into")
+		case escapes:
+			c.undecided(rule, key, ci.Pos(), "the address of the Sequence value the features are linked to is handed on; whether the sequence text reaches it is not followed")
+		default:
+			c.bad(rule, key, ci.Pos(), fmt.Sprintf("%s links features to its local %s through AddFeature, but nothing stores the sequence text into that value (a helper that works on a by-value copy fills the copy): GetSequence on a parsed feature reads an empty parent sequence", short1, a.Comment))
+		}
+	})
+}
+
+// keptUnsorted: the slice v is a local list that only ever grows by append(list, x) at its end and is
+// never sorted or written by index in g. Returns a description, or "" when that is not established.
+func keptUnsorted(g *ssa.Function, v ssa.Value) string {
+	// the variable: a phi web / alloc whose values are append results
+	group := map[ssa.Value]bool{}
+	var appends []*ssa.Call
+	okShape := true
+	var walk func(x ssa.Value)
+	walk = func(x ssa.Value) {
+		if group[x] {
+			return
+		}
+		group[x] = true
+		switch y := x.(type) {
+		case *ssa.Phi:
+			for _, e := range y.Edges {
+				walk(e)
+			}
+		case *ssa.Call:
+			if calleeName(y) == "builtin:append" {
+				appends = append(appends, y)
+				walk(y.Call.Args[0])
+			} else {
+				okShape = false
+			}
+		case *ssa.Const:
+			// nil start value
+		case *ssa.MakeSlice:
+		case *ssa.UnOp:
+			// a variable kept in a cell (captured or address-taken): stores to the cell
+			if a, isA := y.X.(*ssa.Alloc); isA && y.Op.String() == "*" && a.Referrers() != nil {
+				for _, r := range *a.Referrers() {
+					if st, isSt := r.(*ssa.Store); isSt && st.Addr == ssa.Value(a) {
+						walk(st.Val)
+					}
+				}
+			} else {
+				okShape = false
+			}
+		default:
+			okShape = false
+		}
+	}
+	walk(v)
+	if !okShape || len(appends) == 0 {
+		return ""
+	}
+	// no sort, no insertion: nothing else in g may take a member of the group except len/range/index reads and the search itself
+	sorted := false
+	eachInstr(g, func(i ssa.Instruction) {
+		switch x := i.(type) {
+		case ssa.CallInstruction:
+			n := calleeName(x)
+			for _, a := range x.Common().Args {
+				if group[a] || group[unwrap(a)] {
+					if strings.HasPrefix(n, "sort.") && !strings.HasPrefix(n, "sort.Search") || strings.HasPrefix(n, "slices.Sort") || n == "builtin:copy" {
+						sorted = true
+					}
+				}
+			}
+		case *ssa.IndexAddr:
+			if group[x.X] && x.Referrers() != nil {
+				for _, r := range *x.Referrers() {
+					if st, isSt := r.(*ssa.Store); isSt && st.Addr == ssa.Value(x) {
+						sorted = true // written by index: may be an insertion in place
+					}
+				}
+			}
+		case *ssa.Slice:
+			if group[x.X] && x.Referrers() != nil {
+				for _, r := range *x.Referrers() {
+					if cc, isCall := r.(ssa.CallInstruction); isCall && calleeName(cc) == "builtin:copy" {
+						sorted = true
+					}
+				}
+			}
+		}
+	})
+	if sorted {
+		return ""
+	}
+	return "only ever grows by append at its end (arrival order) and is never sorted"
 }
